@@ -144,12 +144,57 @@ Proof.
   rewrite (readInt32_enc _ e) by exact He. rewrite (readInt32_enc _ f) by exact Hf. reflexivity.
 Qed.
 
-Lemma readType_enc p o r : signed_range 4 o ->
-  readType (mkCur p ((be32 o ++ [x00; x00]) ++ r)) = Some (o, mkCur (p + 6) r).
+Lemma readType_enc_g p o d i r : signed_range 4 o ->
+  readType (mkCur p ((be32 o ++ [d; i]) ++ r)) = Some (o, mkCur (p + 6) r).
 Proof.
   intros Ho. unfold readType. rewrite <- app_assoc. rewrite readInt32_enc by exact Ho.
   cbn [app]. rewrite !readUInt8_enc. f_equal. f_equal. f_equal. lia.
 Qed.
+
+Lemma readType_enc p o r : signed_range 4 o ->
+  readType (mkCur p ((be32 o ++ [x00; x00]) ++ r)) = Some (o, mkCur (p + 6) r).
+Proof. apply readType_enc_g. Qed.
+
+(* the ttinfo loop on what the general writer wrote: the offsets come back, whatever the isdst /
+   abbreviation-index bytes are *)
+Lemma readTypes_enc : forall (os : list Z) (tts : list (byte * byte)) p r,
+  length tts = length os -> Forall (signed_range 4) os ->
+  readMany readType (length os) (mkCur p (concat (map ttinfo_bytes (combine os tts)) ++ r)) =
+  Some (os, mkCur (p + 6 * length os) r).
+Proof.
+  induction os as [|o os IH]; intros tts p r Hl F.
+  - cbn. rewrite Nat.add_0_r. reflexivity.
+  - destruct tts as [|[d i] tts]; [discriminate|]. injection Hl as Hl.
+    inversion F as [|? ? Ho Fo]; subst.
+    cbn [length readMany combine map concat]. unfold ttinfo_bytes at 1. cbn [fst snd].
+    rewrite <- app_assoc. rewrite (readType_enc_g p o d i _ Ho). rewrite (IH tts _ r Hl Fo).
+    f_equal. f_equal. f_equal. lia.
+Qed.
+
+Lemma ttinfo_zero : forall (os : list Z),
+  concat (map (fun o => be32 o ++ [x00; x00]) os) =
+  concat (map ttinfo_bytes (combine os (repeat (x00, x00) (length os)))).
+Proof.
+  induction os as [|o os IH]; [reflexivity|].
+  cbn [length repeat combine map concat]. rewrite IH. reflexivity.
+Qed.
+
+(* the writer with isdst = 0 and abbreviation index 0 everywhere is a special case *)
+Lemma encode_block_zero w tb abbr isstd isut :
+  encode_block w tb abbr isstd isut = encode_block_g w tb (tts_zero tb) abbr isstd isut.
+Proof. unfold encode_block, encode_block_g, tts_zero. rewrite ttinfo_zero. reflexivity. Qed.
+
+Lemma encode_v1_zero version tb abbr isstd isut tail :
+  encode_v1 version tb abbr isstd isut tail = encode_v1_g version tb (tts_zero tb) abbr isstd isut tail.
+Proof. unfold encode_v1, encode_v1_g. rewrite encode_block_zero. reflexivity. Qed.
+
+Lemma encode_v2_zero tb1 abbr1 isstd1 isut1 tb abbr isstd isut footer :
+  encode_v2 tb1 abbr1 isstd1 isut1 tb abbr isstd isut footer =
+  encode_v2_g tb1 (tts_zero tb1) abbr1 isstd1 isut1 tb (tts_zero tb) abbr isstd isut footer.
+Proof. unfold encode_v2, encode_v2_g. rewrite !encode_block_zero. reflexivity. Qed.
+
+Lemma tts_zero_length tb : length (tts_zero tb) = length (offs tb).
+Proof. apply repeat_length. Qed.
 
 Lemma addTransitions_enc offs : forall trs,
   Forall (fun tr => (tidx tr < length offs)%nat /\ signed_range 8 (tutc tr + nth (tidx tr) offs 0)) trs ->
@@ -179,15 +224,15 @@ Proof.
     f_equal. f_equal. f_equal. lia.
 Qed.
 
-Lemma readDataBlock_enc w v1 tb abbr isstd isut tail p :
+Lemma readDataBlock_enc_g w v1 tb tts abbr isstd isut tail p :
   (w = 4%nat /\ v1 = true) \/ (w = 8%nat /\ v1 = false) ->
-  encodable w tb abbr isstd isut ->
-  readDataBlock (mkCur p (encode_block w tb abbr isstd isut ++ tail)) v1 = TzOk tb.
+  encodable w tb abbr isstd isut -> length tts = length (offs tb) ->
+  readDataBlock (mkCur p (encode_block_g w tb tts abbr isstd isut ++ tail)) v1 = TzOk tb.
 Proof.
-  intros Hw (Ftr & Foff & Hnt & Hno & Hna & Hstd & Hut).
+  intros Hw (Ftr & Foff & Hnt & Hno & Hna & Hstd & Hut) Htts.
   assert (Hsn : signed_range 4 (Z.of_nat (length isstd))) by (apply sr4_nat; destruct Hstd as [->| ->]; [reflexivity|exact Hno]).
   assert (Hun : signed_range 4 (Z.of_nat (length isut))) by (apply sr4_nat; destruct Hut as [->| ->]; [reflexivity|exact Hno]).
-  unfold readDataBlock, encode_block. rewrite <- !app_assoc.
+  unfold readDataBlock, encode_block_g. rewrite <- !app_assoc.
   rewrite readCounts_enc by (auto using sr4_nat, sr4_0; apply sr4_nat; lia).
   (* the facts generated from readDataBlock: which count is tested / bounds which loop *)
   unfold readDataBlock_reject, readDataBlock_reserve_times, readDataBlock_ntimes, readDataBlock_reserve_idx,
@@ -206,10 +251,10 @@ Proof.
              (mkCur (p + 4 + 4 + 4 + 4 + 4 + 4)
                 (concat (map (fun tr => be_encode w (tutc tr)) (trans tb)) ++
                  map (fun tr => byte_of_Z (Z.of_nat (tidx tr))) (trans tb) ++
-                 concat (map (fun o => be32 o ++ [x00; x00]) (offs tb)) ++ abbr ++ isstd ++ isut ++ tail)) =
+                 concat (map ttinfo_bytes (combine (offs tb) tts)) ++ abbr ++ isstd ++ isut ++ tail)) =
              Some (map tutc (trans tb), mkCur c2
                 (map (fun tr => byte_of_Z (Z.of_nat (tidx tr))) (trans tb) ++
-                 concat (map (fun o => be32 o ++ [x00; x00]) (offs tb)) ++ abbr ++ isstd ++ isut ++ tail))).
+                 concat (map ttinfo_bytes (combine (offs tb) tts)) ++ abbr ++ isstd ++ isut ++ tail))).
   { rewrite <- (map_length tutc (trans tb)).
     rewrite <- (map_map tutc (fun u => be_encode w u)).
     assert (F : Forall (signed_range w) (map tutc (trans tb))).
@@ -223,12 +268,20 @@ Proof.
   destruct Hts as (c2 & ->).
   rewrite readIdx_enc.
   2:{ eapply Forall_impl; [|exact Ftr]. cbv beta. tauto. }
-  rewrite (readMany_enc readType (fun o => be32 o ++ [x00; x00]) 6 (signed_range 4)); [|intros; apply readType_enc; assumption|exact Foff].
+  rewrite (readTypes_enc _ _ _ _ Htts Foff).
   rewrite <- (map_length tutc (trans tb)) at 1. rewrite firstn_all.
   rewrite <- (map_length (fun tr => Z.of_nat (tidx tr)) (trans tb)). rewrite firstn_all.
   rewrite addTransitions_enc.
   2:{ eapply Forall_impl; [|exact Ftr]. cbv beta. tauto. }
   rewrite readBytes_app. destruct tb; reflexivity.
+Qed.
+
+Lemma readDataBlock_enc w v1 tb abbr isstd isut tail p :
+  (w = 4%nat /\ v1 = true) \/ (w = 8%nat /\ v1 = false) ->
+  encodable w tb abbr isstd isut ->
+  readDataBlock (mkCur p (encode_block w tb abbr isstd isut ++ tail)) v1 = TzOk tb.
+Proof.
+  intros Hw Henc. rewrite encode_block_zero. apply readDataBlock_enc_g; [exact Hw|exact Henc|apply tts_zero_length].
 Qed.
 
 Lemma header_length v : length (header v) = 20%nat.
@@ -241,20 +294,29 @@ Proof.
 Qed.
 
 (* the counts of a block, as the reader of the FIRST header sees them *)
+Lemma encode_block_counts_g w tb tts abbr isstd isut : length tts = length (offs tb) ->
+  exists body, encode_block_g w tb tts abbr isstd isut =
+    be32 (Z.of_nat (length isut)) ++ be32 (Z.of_nat (length isstd)) ++ be32 0 ++
+    be32 (Z.of_nat (length (trans tb))) ++ be32 (Z.of_nat (length (offs tb))) ++ be32 (Z.of_nat (length abbr)) ++ body /\
+    length body = (w * length (trans tb) + length (trans tb) + 6 * length (offs tb) + length abbr + length isstd + length isut)%nat.
+Proof.
+  intros Htts. eexists. split; [unfold encode_block_g; reflexivity|].
+  rewrite !app_length, map_length.
+  assert (L1 : forall (l : list transition), length (concat (map (fun tr => be_encode w (tutc tr)) l)) = (w * length l)%nat).
+  { induction l as [|a l IH]; [cbn; lia|]. cbn [map concat length]. rewrite app_length, be_encode_length, IH. lia. }
+  assert (L2 : forall (l : list Z) (t : list (byte * byte)), length t = length l ->
+            length (concat (map ttinfo_bytes (combine l t))) = (6 * length l)%nat).
+  { induction l as [|a l IH]; intros t Ht; [reflexivity|]. destruct t as [|x t]; [discriminate|]. injection Ht as Ht.
+    cbn [combine map concat length]. unfold ttinfo_bytes at 1. rewrite !app_length, (IH _ Ht). unfold be32. rewrite be_encode_length. cbn [length]. lia. }
+  rewrite L1, (L2 _ _ Htts). lia.
+Qed.
+
 Lemma encode_block_counts w tb abbr isstd isut :
   exists body, encode_block w tb abbr isstd isut =
     be32 (Z.of_nat (length isut)) ++ be32 (Z.of_nat (length isstd)) ++ be32 0 ++
     be32 (Z.of_nat (length (trans tb))) ++ be32 (Z.of_nat (length (offs tb))) ++ be32 (Z.of_nat (length abbr)) ++ body /\
     length body = (w * length (trans tb) + length (trans tb) + 6 * length (offs tb) + length abbr + length isstd + length isut)%nat.
-Proof.
-  eexists. split; [unfold encode_block; reflexivity|].
-  rewrite !app_length, map_length.
-  assert (L1 : forall (l : list transition), length (concat (map (fun tr => be_encode w (tutc tr)) l)) = (w * length l)%nat).
-  { induction l as [|a l IH]; [cbn; lia|]. cbn [map concat length]. rewrite app_length, be_encode_length, IH. lia. }
-  assert (L2 : forall (l : list Z), length (concat (map (fun o => be32 o ++ [x00; x00]) l)) = (6 * length l)%nat).
-  { induction l as [|a l IH]; [reflexivity|]. cbn [map concat length]. rewrite !app_length, IH. unfold be32. rewrite be_encode_length. cbn [length]. lia. }
-  rewrite L1, L2. lia.
-Qed.
+Proof. rewrite encode_block_zero. apply encode_block_counts_g, tts_zero_length. Qed.
 
 (* the literals and constants generated from readTimeZoneFile, as the writer's side spells them
    (fails, closing the proof, when the source says something else) *)
@@ -273,17 +335,17 @@ Ltac tz_consts :=
   unfold readTimeZoneFile_skip, readTimeZoneFile_skip_fits.
 
 (* a version-1 file, and any file whose version byte is not '2' (muduo reads its 32-bit data) *)
-Lemma parse_encode_v1 version tb abbr isstd isut tail :
-  version <> x32 -> encodable 4 tb abbr isstd isut ->
-  tzif_parse (encode_v1 version tb abbr isstd isut tail) = TzOk tb.
+Lemma parse_encode_v1_g version tb tts abbr isstd isut tail :
+  version <> x32 -> encodable 4 tb abbr isstd isut -> length tts = length (offs tb) ->
+  tzif_parse (encode_v1_g version tb tts abbr isstd isut tail) = TzOk tb.
 Proof.
-  intros Hv Henc. pose proof Henc as (Ftr & Foff & Hnt & Hno & Hna & Hstd & Hut).
+  intros Hv Henc Htts. pose proof Henc as (Ftr & Foff & Hnt & Hno & Hna & Hstd & Hut).
   assert (Hsn : signed_range 4 (Z.of_nat (length isstd))) by (apply sr4_nat; destruct Hstd as [->| ->]; [reflexivity|exact Hno]).
   assert (Hun : signed_range 4 (Z.of_nat (length isut))) by (apply sr4_nat; destruct Hut as [->| ->]; [reflexivity|exact Hno]).
-  destruct (encode_block_counts 4 tb abbr isstd isut) as (body & Eb & _).
-  unfold tzif_parse, encode_v1. tz_consts.
-  set (file := header version ++ encode_block 4 tb abbr isstd isut ++ tail).
-  assert (Hf : file = magic ++ [version] ++ repeat x00 15 ++ encode_block 4 tb abbr isstd isut ++ tail).
+  destruct (encode_block_counts_g 4 tb tts abbr isstd isut Htts) as (body & Eb & _).
+  unfold tzif_parse, encode_v1_g. tz_consts.
+  set (file := header version ++ encode_block_g 4 tb tts abbr isstd isut ++ tail).
+  assert (Hf : file = magic ++ [version] ++ repeat x00 15 ++ encode_block_g 4 tb tts abbr isstd isut ++ tail).
   { unfold file, header. rewrite <- !app_assoc. reflexivity. }
   rewrite Hf at 1.
   rewrite (readBytes_n 4 0 magic) by reflexivity. rewrite bytes_eqb_refl. cbn [negb].
@@ -296,30 +358,37 @@ Proof.
     apply Byte.byte_dec_bl in E. contradiction. }
   rewrite Ev.
   assert (Hsk : skip file (-24) (mkCur (0 + 4 + 1 + 15 + 4 + 4 + 4 + 4 + 4 + 4)
-                   (body ++ tail)) = mkCur 20 (encode_block 4 tb abbr isstd isut ++ tail)).
+                   (body ++ tail)) = mkCur 20 (encode_block_g 4 tb tts abbr isstd isut ++ tail)).
   { unfold skip. cbn [cpos]. change (Z.of_nat (0 + 4 + 1 + 15 + 4 + 4 + 4 + 4 + 4 + 4) + -24) with 20.
     destruct (Z.ltb_spec 20 0) as [H|_]; [lia|].
     assert (Hl : 20 <= Z.of_nat (length file)).
     { unfold file. rewrite app_length, header_length. lia. }
     rewrite Z.min_l by exact Hl. change (Z.to_nat 20) with 20%nat. reflexivity. }
-  rewrite Hsk. apply readDataBlock_enc; [left; auto|exact Henc].
+  rewrite Hsk. apply readDataBlock_enc_g; [left; auto|exact Henc|exact Htts].
+Qed.
+
+Lemma parse_encode_v1 version tb abbr isstd isut tail :
+  version <> x32 -> encodable 4 tb abbr isstd isut ->
+  tzif_parse (encode_v1 version tb abbr isstd isut tail) = TzOk tb.
+Proof.
+  intros Hv Henc. rewrite encode_v1_zero. apply parse_encode_v1_g; [exact Hv|exact Henc|apply tts_zero_length].
 Qed.
 
 (* a version-2 file: whatever well-formed 32-bit block comes first, the 64-bit table is read
    (`6 * typecnt` of the first header is computed in int by the C++) *)
-Lemma parse_encode_v2 tb1 abbr1 isstd1 isut1 tb abbr isstd isut footer :
-  encodable 4 tb1 abbr1 isstd1 isut1 -> 6 * Z.of_nat (length (offs tb1)) < 2 ^ 31 ->
-  encodable 8 tb abbr isstd isut ->
-  tzif_parse (encode_v2 tb1 abbr1 isstd1 isut1 tb abbr isstd isut footer) = TzOk tb.
+Lemma parse_encode_v2_g tb1 tts1 abbr1 isstd1 isut1 tb tts abbr isstd isut footer :
+  encodable 4 tb1 abbr1 isstd1 isut1 -> length tts1 = length (offs tb1) -> 6 * Z.of_nat (length (offs tb1)) < 2 ^ 31 ->
+  encodable 8 tb abbr isstd isut -> length tts = length (offs tb) ->
+  tzif_parse (encode_v2_g tb1 tts1 abbr1 isstd1 isut1 tb tts abbr isstd isut footer) = TzOk tb.
 Proof.
-  intros Henc1 Hty6 Henc. pose proof Henc1 as (Ftr & Foff & Hnt & Hno & Hna & Hstd & Hut).
+  intros Henc1 Htts1 Hty6 Henc Htts. pose proof Henc1 as (Ftr & Foff & Hnt & Hno & Hna & Hstd & Hut).
   assert (Hsn : signed_range 4 (Z.of_nat (length isstd1))) by (apply sr4_nat; destruct Hstd as [->| ->]; [reflexivity|exact Hno]).
   assert (Hun : signed_range 4 (Z.of_nat (length isut1))) by (apply sr4_nat; destruct Hut as [->| ->]; [reflexivity|exact Hno]).
-  destruct (encode_block_counts 4 tb1 abbr1 isstd1 isut1) as (body & Eb & Lb).
-  unfold tzif_parse, encode_v2. tz_consts.
-  set (rest2 := header x32 ++ encode_block 8 tb abbr isstd isut ++ footer).
-  set (file := header x32 ++ encode_block 4 tb1 abbr1 isstd1 isut1 ++ rest2).
-  assert (Hf : file = magic ++ [x32] ++ repeat x00 15 ++ encode_block 4 tb1 abbr1 isstd1 isut1 ++ rest2).
+  destruct (encode_block_counts_g 4 tb1 tts1 abbr1 isstd1 isut1 Htts1) as (body & Eb & Lb).
+  unfold tzif_parse, encode_v2_g. tz_consts.
+  set (rest2 := header x32 ++ encode_block_g 8 tb tts abbr isstd isut ++ footer).
+  set (file := header x32 ++ encode_block_g 4 tb1 tts1 abbr1 isstd1 isut1 ++ rest2).
+  assert (Hf : file = magic ++ [x32] ++ repeat x00 15 ++ encode_block_g 4 tb1 tts1 abbr1 isstd1 isut1 ++ rest2).
   { unfold file, header. rewrite <- !app_assoc. reflexivity. }
   rewrite Hf at 1.
   rewrite (readBytes_n 4 0 magic) by reflexivity. rewrite bytes_eqb_refl. cbn [negb].
@@ -353,7 +422,7 @@ Proof.
   rewrite Hsk.
   unfold rest2 at 1. unfold header. rewrite <- !app_assoc.
   rewrite (readBytes_n 4 _ magic) by reflexivity. rewrite bytes_eqb_refl. cbn [negb].
-  set (blk := encode_block 8 tb abbr isstd isut ++ footer).
+  set (blk := encode_block_g 8 tb tts abbr isstd isut ++ footer).
   assert (Hsk2 : exists p2, skip file 16 (mkCur (44 + length body + 4) ([x32] ++ repeat x00 15 ++ blk)) = mkCur p2 blk).
   { unfold skip. cbn [cpos].
     destruct (Z.ltb_spec (Z.of_nat (44 + length body + 4) + 16) 0) as [H|_]; [lia|].
@@ -369,7 +438,16 @@ Proof.
     match goal with |- skipn ?n (?a ++ _) = _ => replace n with (length a) end; [apply skipn_app_exact|].
     rewrite !app_length. unfold be32. rewrite !be_encode_length, repeat_length, header_length. change (length magic) with 4%nat. cbn [length]. lia. }
   destruct Hsk2 as (p2 & ->).
-  unfold blk. apply readDataBlock_enc; [right; auto|exact Henc].
+  unfold blk. apply readDataBlock_enc_g; [right; auto|exact Henc|exact Htts].
+Qed.
+
+Lemma parse_encode_v2 tb1 abbr1 isstd1 isut1 tb abbr isstd isut footer :
+  encodable 4 tb1 abbr1 isstd1 isut1 -> 6 * Z.of_nat (length (offs tb1)) < 2 ^ 31 ->
+  encodable 8 tb abbr isstd isut ->
+  tzif_parse (encode_v2 tb1 abbr1 isstd1 isut1 tb abbr isstd isut footer) = TzOk tb.
+Proof.
+  intros Henc1 Hty6 Henc. rewrite encode_v2_zero.
+  apply parse_encode_v2_g; [exact Henc1|apply tts_zero_length|exact Hty6|exact Henc|apply tts_zero_length].
 Qed.
 
 (* the 32-bit half a conforming writer puts in front may be empty *)
